@@ -202,7 +202,12 @@ impl RtpsStatefulWriter {
                         core::iter::once(nackfrag_submessage.fragment_number_state().base())
                             .chain(nackfrag_submessage.fragment_number_state().set())
                     {
-                        let request_fragment_number = request_fragment_number as usize;
+                        // Fragment numbers on the wire start at 1, fragment indices at 0
+                        let Some(request_fragment_number) =
+                            (request_fragment_number as usize).checked_sub(1)
+                        else {
+                            continue;
+                        };
                         // Either send a DATAFRAG submessages or send a single DATA submessage
                         if (request_fragment_number) < number_of_fragments
                             && cache_change.kind == ChangeKind::Alive
